@@ -99,19 +99,56 @@ func (s *Solver) file(text string) string {
 	return p
 }
 
-// discharge decides one obligation.
+// discharge decides one obligation. Proof obligations are first tried on the
+// sliced query (path condition restricted to the cone of influence of the
+// goal: a weaker hypothesis, so unsat is a proof), then on the full query.
 func (s *Solver) discharge(c *Ctx, o *Obligation) {
-	q := c.query(o, false)
+	if o.Expect == "sat" {
+		s.run(c, o, c.query(o, false), false)
+		return
+	}
+	if !c.NoSlice {
+		s.run(c, o, c.slicedQuery(o, false), true)
+		if o.Status == "PROVED" || o.Status == "DISAGREE" {
+			return
+		}
+	}
+	slicedStatus, slicedBackend := o.Status, o.Backend
+	t := o.SolverS
+	if slicedStatus == "REFUTED" {
+		// a candidate counterexample exists: give the full query a short try only
+		s2 := &Solver{dir: s.dir, timeoutS: min(s.timeoutS, 4), agree: s.agree, n: 1000000 + s.n}
+		s2.run(c, o, c.query(o, false), false)
+	} else {
+		s.run(c, o, c.query(o, false), false)
+	}
+	o.SolverS += t
+	if o.Status == "UNPROVED" && slicedStatus == "REFUTED" {
+		// only the sliced query has a model: a candidate counterexample
+		o.Status = "REFUTED"
+		o.Backend = slicedBackend
+		o.Sliced = true
+		for _, sp := range solvers {
+			if sp.name == slicedBackend {
+				s.modelOf(c, o, sp, c.slicedQuery(o, true))
+			}
+		}
+	}
+}
+
+func (s *Solver) run(c *Ctx, o *Obligation, q string, sliced bool) {
 	file := s.file(q)
 	defer os.Remove(file)
 	var total float64
 	var last solveResult
 	quick := s.timeoutS
-	// first a short round on every solver, then the full timeout
 	rounds := []int{min(3, quick), quick}
+	if sliced {
+		rounds = []int{min(3, quick), min(10, quick)}
+	}
 	var disagree []string
 	for ri, t := range rounds {
-		if ri == 1 && quick <= 3 {
+		if ri == 1 && t <= rounds[0] {
 			break
 		}
 		for _, sp := range solvers {
@@ -146,10 +183,11 @@ func (s *Solver) discharge(c *Ctx, o *Obligation) {
 					}
 					return
 				}
-				// the opposite definite answer
 				if want == "unsat" {
 					o.Status = "REFUTED"
-					s.model(c, o, sp)
+					if !sliced {
+						s.modelOf(c, o, sp, c.query(o, true))
+					}
 				} else {
 					o.Status = "VACUOUS"
 				}
@@ -166,9 +204,7 @@ func (s *Solver) discharge(c *Ctx, o *Obligation) {
 	o.Raw = last.answer + ": " + strings.TrimSpace(last.raw)
 }
 
-// model re-runs the refuting solver with model production.
-func (s *Solver) model(c *Ctx, o *Obligation, sp solverSpec) {
-	q := c.query(o, true)
+func (s *Solver) modelOf(c *Ctx, o *Obligation, sp solverSpec, q string) {
 	file := s.file(q)
 	defer os.Remove(file)
 	r := runSolver(sp, file, s.timeoutS)
